@@ -117,7 +117,9 @@ def run_case(chk: Check, sc: Scratch, idx: int) -> None:
     t, items = gen_dir(rng, sc.path)
     root = sc.sub("r%d" % idx)
     t.materialize(root)
-    site = driver.Site(root, overrides={("handlers.UMN.UMNDirHandler", "extstrip"): "none"})
+    # cache on: the second $ of each directory is answered from the directory cache and must be as faithful
+    site = driver.Site(root, overrides={("handlers.UMN.UMNDirHandler", "extstrip"): "none",
+                                        ("handlers.dir.DirHandler", "cachetime"): "1000"})
     try:
         req, _ = reqs.render("gopher", b"/d")
         plain = site.request(req)
